@@ -56,7 +56,9 @@ def THRESHOLD_EST(eye_obj: eye):
     s1 = eye_obj.s1
 
     r = np.linspace(mu0, mu1, 1000)
-    umbral = r[np.argmin( 0.5*(Q((mu1-r)/s1) + Q((r-mu0)/s0)) )]
+    pe = 0.5*(Q((mu1-r)/s1) + Q((r-mu0)/s0))
+    i = np.flatnonzero(pe == pe.min()) # for very open eyes the error probability underflows to 0 over a whole range of thresholds
+    umbral = r[i[len(i)//2]] if i.size else r[np.argmin(pe)] # take its centre (the single minimum otherwise), not its first point next to level 0
     return umbral
 
 
